@@ -1,21 +1,28 @@
 """C06 - DeepLIFT/SHAP attributions do not depend on batch size, co-batched examples or call
 order: correspondence with coq/C06.
 
-One case is a FAMILY of deep_lift_shap calls on the same examples: the first call passes all
-examples in their original order in one batch, the others vary batch_size, pass sub-lists /
-permutations of the examples (with their rows of args and of the reference tensor), or repeat
-a call.  Two kinds of family:
+One case is a FAMILY of deep_lift_shap calls on the same examples, made IN ORDER in one process on
+one model object (or, where marked, on a fresh copy): the first call passes all examples in their
+original order in one batch, the others vary batch_size, pass sub-lists / permutations of the
+examples (with their rows of args and of the reference tensor), repeat a call, or are "class 1"
+calls that override a built-in rule through `additional_nonlinear_ops`; every call is compared
+with the first call of its class.  Two kinds of family:
 
 * 'enc': the model is a recording module (logs the rows of X_ and of every arg per forward
-  call) around an op registered through `additional_nonlinear_ops` whose rule returns the
-  exact-integer multipliers 60 * (x + 4 * ref + 32 * sum(args)) for each (example, reference)
-  row, so every output identifies the pairs it was computed from; references are a tagged
-  integer tensor or a deterministic tagged function of (row, seed).  Outputs, returned
-  references and the per-flush trace are compared in Coq with the executable model.
+  call, and the (rows, n, random_state) of every call of the reference function) around an op
+  registered through `additional_nonlinear_ops` whose rule returns the exact-integer multipliers
+  60 * (x + 4 * ref + 32 * sum(args)) for each (example, reference) row times the gradient coming
+  from a built-in ReLU behind it (1 under the built-in rule, 2 under the class-1 override), so
+  every output identifies the pairs and the rule table it was computed with; references are a
+  tagged integer tensor or a deterministic tagged function - either seeding row i of a call with
+  random_state + i (like dinucleotide_shuffle) or applying one seed to the whole call (like
+  ersatz.shuffle).  Outputs, returned references and the per-flush trace (rows, args,
+  reference-function calls) are compared in Coq with the executable model.
 * 'real': a small real network (conv / linear / ReLU / ELU / tanh / max-pool, optionally an
-  extra arg) with the real dinucleotide_shuffle and an integer random_state.  A separate
-  oracle call supplies each example's attributions and references; the Coq model runs the
-  loop symbolically.  References are compared exactly, attributions (floats, passed as
+  extra arg) with the real dinucleotide_shuffle or the real ersatz.shuffle and an integer
+  random_state; class-1 calls override the rule of the network's non-linearity.  Separate
+  oracle calls (one pair per batch) supply each example's attributions per class and its
+  references; the Coq model runs the loop symbolically.  References are compared exactly, attributions (floats, passed as
   exact rationals) with the tolerance stated in coq/C06/Spec.v (torch kernels may round
   differently for different batch compositions).
 """
@@ -32,11 +39,12 @@ PID = 'C06'
 IMPORTS = ['Base.PyList', 'C06.Model', 'C06.Spec']
 CASE_TYPE = 'case'
 CHECK = 'check_case'
-RULE = ('families of calls; enc: n<=5, n_shuffles<=6, EVERY batch_size in 1..n*ns+1 (+ the call repeated), '
+RULE = ('families of calls made in order on one model; enc: n<=5, n_shuffles<=6, EVERY batch_size in 1..n*ns+1 (+ the call '
+        'repeated, + calls overriding the built-in ReLU rule via additional_nonlinear_ops interleaved, + fresh model copies), '
         'and for n<=4 every ordered selection of distinct examples (all subsets x all orders) and some with '
         'repeats, at batch sizes straddling examples; raw / processed / hypothetical, reference tensor / '
-        'tagged reference function with integer seed, 0-2 extra args, return_references on/off; real: small '
-        'conv/linear nets with the real dinucleotide_shuffle, integer seeds, all batch sizes, selections, '
+        'tagged reference function with integer seed (per-row seed offset / one seed per call; every call recorded), 0-2 extra '
+        'args, return_references on/off; real: small conv/linear nets with the real dinucleotide_shuffle or ersatz.shuffle, integer seeds, overriding calls,  all batch sizes, selections, '
         'repeated calls; non-trivial = some call of the family has a batch_size that is not a multiple of '
         'n_shuffles and is smaller than n*n_shuffles (for real nets additionally: the examples\' attributions '
         'differ from each other, in some coordinate, by more than 100x the tolerance)')
@@ -62,40 +70,62 @@ class EncOp(torch.nn.Module):
 
 
 def enc_rule(module, grad_input, grad_output):
+    """60 * (x + 4 ref + 32 sum(args)) per (example, reference) row, times the gradient arriving from
+    the ReLU behind the op (1 under the built-in rescale rule: all inputs are >= 0 and an example entry
+    never equals its reference entry; 2 when the call overrides the ReLU rule with relu_twice)"""
     inp = module.seen
     B = inp.shape[0] // 2
     x, r = inp[:B], inp[B:]
     g = 60.0 * (x + 4.0 * r + 32.0 * module.t[:B, None, None])
-    return (torch.cat([g, g]),)
+    return (torch.cat([g, g]) * grad_output[0],)
+
+
+def relu_twice(module, grad_input, grad_output):
+    """an overriding rule for the built-in torch.nn.ReLU entry (class-1 calls)"""
+    return (2.0 * grad_output[0],)
+
+
+class TaggedRefs:
+    """deterministic tagged reference functions; every call is recorded as (rows, n, random_state).
+    kind 'row': row i of the batch it is given is shuffled with seed random_state + i (as
+    dinucleotide_shuffle does); kind 'flat': ONE seed for the whole call (as ersatz.shuffle does).
+    ref[c, l] = (3 x[c, l] + seed + c + 2 l) mod 4 + 4.  On a single row both coincide."""
+    def __init__(self, kind):
+        self.kind = kind
+        self.calls = []
+
+    def __call__(self, X, n=1, random_state=None):
+        self.calls.append(([tcols(x) for x in X], int(n), int(random_state)))
+        B, A, L = X.shape
+        c = torch.arange(A)[:, None]
+        l = torch.arange(L)[None, :]
+        out = torch.zeros(B, n, A, L)
+        for i in range(B):
+            seed = random_state + (i if self.kind == 'row' else 0)
+            for k in range(n):
+                out[i, k] = ((3 * X[i].long() + seed + c + 2 * l + 5 * k) % 4 + 4).float()
+        return out
 
 
 class EncNet(torch.nn.Module):
-    def __init__(self):
+    def __init__(self, reffn=None):
         super().__init__()
         self.enc = EncOp()
+        self.relu = torch.nn.ReLU()
+        self.reffn = reffn
         self.log = []
 
     def forward(self, X, *args):
-        self.log.append((X.detach().clone(), [a.detach().clone() for a in args]))
+        calls = []
+        if self.reffn is not None:      # the reference-function calls that built this batch
+            calls, self.reffn.calls = self.reffn.calls, []
+        self.log.append((X.detach().clone(), [a.detach().clone() for a in args], calls))
         t = torch.zeros(X.shape[0])
         for a in args:
             t = t + a.float().reshape(a.shape[0], -1).sum(dim=1)
         self.enc.t = t
-        y = self.enc(X)
+        y = self.relu(self.enc(X))
         return y.reshape(y.shape[0], -1).sum(dim=1, keepdim=True)
-
-
-def tagged_refs(X, n=1, random_state=None):
-    """row i of the batch it is given is shuffled with seed random_state + i (as
-    dinucleotide_shuffle does): ref[c, l] = (3 x[c, l] + seed + c + 2 l) mod 8"""
-    B, A, L = X.shape
-    c = torch.arange(A)[:, None]
-    l = torch.arange(L)[None, :]
-    out = torch.zeros(B, n, A, L)
-    for i in range(B):
-        for k in range(n):
-            out[i, k] = ((3 * X[i].long() + (random_state + i) + c + 2 * l + 5 * k) % 8).float()
-    return out
 
 
 def tcols(t):
@@ -113,18 +143,27 @@ def run_enc(inp):
     args = [torch.tensor(a, dtype=torch.int64 if k % 2 == 0 else torch.float32)
             for k, a in enumerate(inp['args'])]
     refs = torch.tensor(inp['refs'], dtype=torch.float32) if inp['seed'] is None else None
+    reffn = TaggedRefs(inp.get('reffn', 'row')) if refs is None else None
     runs = []
+    net = EncNet(reffn)         # the calls of a family are made in order on ONE model object ...
     for v in inp['vars']:
         sel = v['sel']
-        net = EncNet()
+        if v.get('fresh'):      # ... or on a fresh copy
+            net = EncNet(reffn)
+        net.log = []
+        if reffn is not None:
+            reffn.calls = []
         rec = {'ok': False, 'out': None, 'refs': None}
         try:
             Xv = X[sel]
+            ops = {EncOp: enc_rule}
+            if v.get('cls', 0) == 1:
+                ops[torch.nn.ReLU] = relu_twice
             kw = dict(target=0, batch_size=v['b'], n_shuffles=inp['ns'], return_references=inp['ret'],
                       hypothetical=(inp['mode'] == 'hyp'), raw_outputs=(inp['mode'] == 'raw'),
-                      additional_nonlinear_ops={EncOp: enc_rule}, warning_threshold=1e30,
+                      additional_nonlinear_ops=ops, warning_threshold=1e30,
                       device='cpu', random_state=inp['seed'])
-            kw['references'] = refs[sel] if refs is not None else tagged_refs
+            kw['references'] = refs[sel] if refs is not None else reffn
             if args:
                 kw['args'] = tuple(a[sel] for a in args)
             res = deep_lift_shap(net, Xv, **kw)
@@ -141,8 +180,9 @@ def run_enc(inp):
         except Exception as e:
             rec['error'] = '%s: %s' % (type(e).__name__, str(e)[:200])
         rec['trace'] = [{'X': [tcols(t) for t in Xb],
-                         'args': [a.reshape(a.shape[0], -1).double().round().to(torch.int64).tolist() for a in Ab]}
-                        for Xb, Ab in net.log]
+                         'args': [a.reshape(a.shape[0], -1).double().round().to(torch.int64).tolist() for a in Ab],
+                         'calls': cl}
+                        for Xb, Ab, cl in net.log]
         runs.append(rec)
     return {'runs': runs}
 
@@ -201,25 +241,47 @@ def ilist(t):
     return t.detach().cpu().round().to(torch.int64).reshape(-1).tolist()
 
 
+def plain_gradient(module, grad_input, grad_output):
+    """an overriding rule: leave the gradient alone (class-1 calls on real networks)"""
+    return grad_input
+
+
+OVERRIDE = {'conv-relu-pool-lin': torch.nn.ReLU, 'flat-lin-tanh-lin': torch.nn.Tanh,
+            'conv-elu-conv-relu-lin': torch.nn.ELU, 'conv-relu-lin-scaled': torch.nn.ReLU}
+
+
 def run_real(inp):
     from tangermeme.deep_lift_shap import deep_lift_shap
+    from tangermeme.ersatz import shuffle, dinucleotide_shuffle
     X, alpha = real_inputs(inp)
-    net = build_net(inp['arch'], inp['L'], inp['wseed'])
     sizes = []
-    net.register_forward_pre_hook(lambda m, a: sizes.append(int(a[0].shape[0])))
 
-    def call(sel, b, ret):
-        kw = dict(target=0, batch_size=b, n_shuffles=inp['ns'], return_references=ret,
+    def make():
+        net = build_net(inp['arch'], inp['L'], inp['wseed'])
+        net.register_forward_pre_hook(lambda m, a: sizes.append(int(a[0].shape[0])))
+        return net
+
+    net = [make()]
+    reffn = shuffle if inp.get('reffn') == 'shuffle' else dinucleotide_shuffle
+
+    def call(sel, b, ret, cls=0, fresh=False):
+        if fresh:
+            net[0] = make()
+        kw = dict(target=0, batch_size=b, n_shuffles=inp['ns'], return_references=ret, references=reffn,
                   hypothetical=(inp['mode'] == 'hyp'), raw_outputs=(inp['mode'] == 'raw'),
                   warning_threshold=1e30, device='cpu', random_state=inp['seed'])
+        if cls == 1:
+            kw['additional_nonlinear_ops'] = {OVERRIDE[inp['arch']]: plain_gradient}
         if alpha is not None:
             kw['args'] = (alpha[sel],)
-        return deep_lift_shap(net, X[sel], **kw)
+        return deep_lift_shap(net[0], X[sel], **kw)
 
     out = {'runs': [], 'oracle': None}
-    try:
-        attr, rr = call(list(range(inp['N'])), inp['N'] * inp['ns'], True)
-        out['oracle'] = {'val': [[str(q) for q in qlist(ex)] for ex in attr],
+    allx = list(range(inp['N']))
+    try:    # oracle for the plain class, before anything else: one pair per batch, by definition
+            # shuffle j of example e is references(X[e:e+1], n=1, random_state + j)
+        attr, rr = call(allx, 1, True)
+        out['oracle'] = {'val': [[[str(q) for q in qlist(ex)] for ex in attr]],
                          'refs': [[ilist(r) for r in ex] for ex in rr]}
     except Exception as e:
         out['oracle_error'] = '%s: %s' % (type(e).__name__, str(e)[:200])
@@ -227,7 +289,7 @@ def run_real(inp):
         del sizes[:]
         rec = {'ok': False, 'out': None, 'refs': None}
         try:
-            res = call(v['sel'], v['b'], inp['ret'])
+            res = call(v['sel'], v['b'], inp['ret'], v.get('cls', 0), v.get('fresh', False))
             if inp['ret']:
                 attr, rr = res
                 rec['refs'] = [[ilist(r) for r in ex] for ex in rr]
@@ -239,6 +301,12 @@ def run_real(inp):
             rec['error'] = '%s: %s' % (type(e).__name__, str(e)[:200])
         rec['trace'] = list(sizes)
         out['runs'].append(rec)
+    if out['oracle'] is not None and any(v.get('cls', 0) == 1 for v in inp['vars']):
+        try:    # oracle for the overriding class, after everything else, on a fresh copy
+            attr = call(allx, 1, False, 1, True)
+            out['oracle']['val'].append([[str(q) for q in qlist(ex)] for ex in attr])
+        except Exception as e:
+            out['oracle_error'] = '%s: %s' % (type(e).__name__, str(e)[:200])
     return out
 
 
@@ -265,7 +333,12 @@ def tlit_AL(t):
 
 
 def var_lit(v):
-    return '(Var %s %s)' % (C.natlist(v['sel']), C.z(v['b']))
+    return '(Var %s %s %s)' % (C.natlist(v['sel']), C.z(v['b']), C.nat(v.get('cls', 0)))
+
+
+def call_lit(cl):
+    rows, n, seed = cl
+    return '(%s, %s, %s)' % (C.lst([tlit(t) for t in rows]), C.z(n), C.z(seed))
 
 
 def qlit(s):
@@ -295,8 +368,9 @@ def coq_case(inp, out):
                 val = '(Ok (%s, %s))' % (o, f)
             else:
                 val = 'Err'
-            tr = C.lst(['(%s, %s)' % (C.lst([tlit(t) for t in fl['X']]),
-                                      C.lst([C.zmat(a) for a in fl['args']])) for fl in r['trace']])
+            tr = C.lst(['(%s, %s, %s)' % (C.lst([tlit(t) for t in fl['X']]),
+                                          C.lst([C.zmat(a) for a in fl['args']]),
+                                          C.lst([call_lit(cl) for cl in fl['calls']])) for fl in r['trace']])
             rl.append('(%s, %s)' % (val, tr))
         return '(CEnc %s %s, OEnc %s)' % (cfg, vars_, C.lst(rl))
     # real
@@ -304,7 +378,7 @@ def coq_case(inp, out):
     exs = []
     for e in range(inp['N']):
         if orc is not None:
-            val = C.lst([qlit(s) for s in orc['val'][e]])
+            val = C.lst([C.lst([qlit(s) for s in cls_val[e]]) for cls_val in orc['val']])
             rf = C.lst([C.zlist(r) for r in orc['refs'][e]])
         else:
             val, rf = '[]', '[]'
@@ -335,7 +409,7 @@ def nontrivial(inp, out):
         orc = out.get('oracle')
         if orc is None or inp['N'] < 2:
             return False
-        vals = [[float(Fraction(s)) for s in ex] for ex in orc['val']]
+        vals = [[float(Fraction(s)) for s in ex] for ex in orc['val'][0]]
         for a, b in itertools.combinations(vals, 2):
             if not any(abs(x - y) > 100 * (2 ** -16 + 2 ** -13 * (abs(x) + abs(y))) for x, y in zip(a, b)):
                 return False
@@ -345,19 +419,20 @@ def nontrivial(inp, out):
 def hist_key(inp, out):
     ok = all(r['ok'] for r in out.get('runs', [])) and bool(out.get('runs'))
     if inp['kind'] == 'enc':
-        return 'enc/%s/%s/%s/args%d/%s/%s' % (inp['mode'], 'tensor' if inp['seed'] is None else 'function',
+        return 'enc/%s/%s/%s/args%d/%s/%s' % (inp['mode'], 'tensor' if inp['seed'] is None else 'function-' + inp.get('reffn', 'row'),
                                               'refs' if inp['ret'] else 'norefs', len(inp['args']),
                                               inp.get('family', '?'), 'ok' if ok else 'raise')
-    return 'real/%s/%s/%s/%s' % (inp['arch'], inp['mode'], inp.get('family', '?'), 'ok' if ok else 'raise')
+    return 'real/%s/%s/%s/%s/%s' % (inp['arch'], inp.get('reffn', 'dinuc'), inp['mode'], inp.get('family', '?'),
+                                    'ok' if ok else 'raise')
 
 
 # ----------------------------------------------------------------------------------------
 # generators
 
-def distinct_tensors(rng, count, A, L, hi):
+def distinct_tensors(rng, count, A, L, hi, lo=0):
     seen, out = set(), []
     while len(out) < count:
-        t = tuple(tuple(rng.randint(0, hi) for _ in range(L)) for _ in range(A))
+        t = tuple(tuple(rng.randint(lo, hi) for _ in range(L)) for _ in range(A))
         if t in seen or not any(any(r) for r in t):
             continue
         seen.add(t)
@@ -377,11 +452,11 @@ def enc_base(rng, N, ns, mode, source, ret, nargs):
         args.append([[tags[e] % 3] + ([(tags[e] // 3) % 2] if w == 2 else []) for e in range(N)])
     inp = {'kind': 'enc', 'mode': mode, 'ret': ret, 'A': A, 'L': L, 'X': X, 'args': args}
     if source == 'tensor':
-        flat = distinct_tensors(rng, N * ns, A, L, 7)
+        flat = distinct_tensors(rng, N * ns, A, L, 7, 4)     # 4..7: never equal to an example entry (0..3)
         inp.update(seed=None, refs=[flat[e * ns:(e + 1) * ns] for e in range(N)],
                    ns=rng.choice([ns, ns + 1, 20, 1]))      # the parameter is ignored for a tensor
     else:
-        inp.update(seed=rng.randint(0, 50), refs=None, ns=ns)
+        inp.update(seed=rng.randint(0, 50), refs=None, ns=ns, reffn='flat' if source == 'function-flat' else 'row')
     inp['ens'] = ns          # the effective number of shuffles
     return inp
 
@@ -390,9 +465,21 @@ def ident(N):
     return list(range(N))
 
 
-def batch_family(N, ns):
-    vs = [{'sel': ident(N), 'b': N * ns + 1}, {'sel': ident(N), 'b': N * ns + 1}]
-    vs += [{'sel': ident(N), 'b': b} for b in range(1, N * ns + 1)]
+def full(N, b, **kw):
+    return dict({'sel': ident(N), 'b': b}, **kw)
+
+
+def batch_family(rng, N, ns):
+    """the reference call (all examples, one batch), the same call again, a call that overrides the
+    built-in ReLU rule, every batch size (with one more overriding call somewhere in the sweep), then
+    the reference call again on the same model object and on a fresh copy, and an overriding call on
+    a fresh copy: plain calls must not see the overrides of the calls before them"""
+    big = N * ns + 1
+    vs = [full(N, big), full(N, big), full(N, big, cls=1)]
+    sweep = [full(N, b) for b in range(1, N * ns + 1)]
+    sweep.insert(rng.randint(0, len(sweep)), full(N, rng.randint(1, big), cls=1))
+    vs += sweep
+    vs += [full(N, big), full(N, rng.randint(1, big), cls=1, fresh=True), full(N, big, fresh=True)]
     return vs
 
 
@@ -409,7 +496,7 @@ def straddling_b(rng, n, ns):
 
 
 def selection_family(rng, N, ns, sels):
-    vs = [{'sel': ident(N), 'b': N * ns + 1}]
+    vs = [full(N, N * ns + 1)]
     for s in sels:
         vs.append({'sel': s, 'b': straddling_b(rng, len(s), ns)})
     return vs
@@ -421,7 +508,7 @@ def fix_ns(inp):
 
 
 MODES = ['raw', 'proc', 'hyp']
-SOURCES = ['tensor', 'function']
+SOURCES = ['tensor', 'function-row', 'function-flat']
 
 
 def gen_enc(tier, rng):
@@ -431,12 +518,10 @@ def gen_enc(tier, rng):
             combos = [(m, s) for m in MODES for s in SOURCES]
             if quick:
                 combos = rng.sample(combos, 3)
-            if not quick:
-                combos = combos + combos       # every (mode, source) twice, with other data / args / return_references
             for mode, source in combos:
                 inp = enc_base(rng, N, ns, mode, source, rng.random() < 0.6, rng.choice([0, 0, 1, 2]))
                 ens = fix_ns(inp)
-                inp['vars'] = batch_family(N, ens)
+                inp['vars'] = batch_family(rng, N, ens)
                 inp['family'] = 'batch'
                 yield inp
     for N in range(2, 5):
@@ -462,7 +547,7 @@ def gen_enc(tier, rng):
         N, ns = rng.randint(1, 3), rng.randint(1, 3)
         inp = enc_base(rng, N, ns, rng.choice(MODES), rng.choice(SOURCES), True, rng.choice([0, 1]))
         ens = fix_ns(inp)
-        inp['vars'] = [{'sel': ident(N), 'b': N * ens}, {'sel': ident(N), 'b': rng.choice([0, -1, -3])}]
+        inp['vars'] = [full(N, N * ens), full(N, rng.choice([0, -1, -3]))]
         inp['family'] = 'b<1'
         yield inp
 
@@ -477,15 +562,16 @@ def gen_real(tier, rng):
         inp = {'kind': 'real', 'arch': arch, 'N': N, 'L': rng.choice([8, 10, 12]), 'ns': ns,
                'xseed': rng.randint(0, 10 ** 6), 'wseed': rng.randint(0, 10 ** 6),
                'seed': rng.randint(0, 10 ** 6), 'mode': MODES[(t // len(ARCHS)) % 3],
-               'ret': rng.random() < 0.7}
-        vs = batch_family(N, ns)
-        if quick and len(vs) > 10:
-            vs = vs[:2] + rng.sample(vs[2:], 8)
+               'ret': rng.random() < 0.7, 'reffn': 'shuffle' if (t // 2) % 2 else 'dinuc'}
+        vs = batch_family(rng, N, ns)
+        if quick and len(vs) > 14:
+            mid = vs[3:-3]
+            vs = vs[:3] + [v for v in mid if v.get('cls') == 1 or rng.random() < 8.0 / len(mid)] + vs[-3:]
         sels = selections(N)
-        vs += [{'sel': s, 'b': straddling_b(rng, len(s), ns)}
-               for s in (rng.sample(sels, min(len(sels), 6 if quick else 16)))]
-        vs.append({'sel': [rng.randrange(N) for _ in range(N + 1)], 'b': rng.randint(1, N * ns)})
-        inp['vars'] = vs
+        extra = [{'sel': s, 'b': straddling_b(rng, len(s), ns)}
+                 for s in (rng.sample(sels, min(len(sels), 6 if quick else 16)))]
+        extra.append({'sel': [rng.randrange(N) for _ in range(N + 1)], 'b': rng.randint(1, N * ns)})
+        inp['vars'] = vs[:-3] + extra + vs[-3:]
         inp['family'] = 'batch+selection'
         yield inp
 
@@ -498,18 +584,22 @@ def generate(tier, rng):
 
 
 def shrink(inp):
+    """drop calls from the family (a leak between calls needs three of them: keep dropping one at a
+    time while the verdict persists), then examples from a selection, then lower the batch size"""
     vs = inp['vars']
+    if len(vs) > 8:
+        for k in range(0, len(vs), max(1, len(vs) // 6)):
+            yield dict(inp, vars=vs[:k] + vs[k + max(1, len(vs) // 6):])
     if len(vs) > 2:
-        # keep the reference call and one other call
-        for k in range(1, len(vs)):
-            yield dict(inp, vars=[vs[0], vs[k]])
-    elif len(vs) == 2:
-        v = vs[1]
-        if len(v['sel']) > 1:
+        for k in range(len(vs) - 1, -1, -1):
+            yield dict(inp, vars=vs[:k] + vs[k + 1:])
+    if 2 <= len(vs) <= 3:
+        v = vs[-1]
+        if len(v['sel']) > 1 and v['sel'] != vs[0]['sel']:
             for k in range(len(v['sel'])):
-                yield dict(inp, vars=[vs[0], dict(v, sel=v['sel'][:k] + v['sel'][k + 1:])])
+                yield dict(inp, vars=vs[:-1] + [dict(v, sel=v['sel'][:k] + v['sel'][k + 1:])])
         if v['b'] > 1:
-            yield dict(inp, vars=[vs[0], dict(v, b=v['b'] - 1)])
+            yield dict(inp, vars=vs[:-1] + [dict(v, b=v['b'] - 1)])
 
 
 def search(rng, disagreeing):
